@@ -26,7 +26,12 @@ ASSUMPTIONS = ["GFF3- and GTF-dialect databases (update routes by the stored dia
 STRATS = ["create_unique", "merge", "replace", "error", "warning"]
 
 
-def init_feats():
+def init_feats(named=False):
+    if named:
+        # every line has an ID: the database starts with no autoincrement counter at all
+        return [imp.mkfeat(type_="gene", s=1, e=100, attrs=[["ID", ["g1"]], ["Name", ["n1"]]]),
+                imp.mkfeat(type_="mRNA", s=1, e=100, attrs=[["ID", ["m1"]], ["Parent", ["g1"]]]),
+                imp.mkfeat(type_="exon", s=1, e=20, attrs=[["ID", ["e1"]], ["Parent", ["m1"]]])]
     return [imp.mkfeat(type_="gene", s=1, e=100, attrs=[["ID", ["g1"]], ["Name", ["n1"]]]),
             imp.mkfeat(type_="mRNA", s=1, e=100, attrs=[["ID", ["m1"]], ["Parent", ["g1"]]]),
             imp.mkfeat(type_="exon", s=1, e=20, attrs=[["ID", ["e1"]], ["Parent", ["m1"]]]),
@@ -140,6 +145,12 @@ def gen_cases(rng, tier):
     nr = 500 if tier == "quick" else 8000
     for _ in range(nr):
         cases.append({"ops": [gen_op(rng) for _ in range(rng.choice([2, 3, 4, 6, 8]))]})
+    # databases that start without any autoincrement counter: the counters first appear during update()
+    for n in range(1, 3 if tier == "quick" else 4):
+        for seq in itertools.product([0, 1, 2, 4, 8, 9, 13], repeat=n):
+            cases.append({"init": "named", "ops": [ALPHA[i] for i in seq]})
+    for _ in range(nr // 4):
+        cases.append({"init": "named", "ops": [gen_op(rng) for _ in range(rng.choice([2, 3, 4, 6]))]})
     # GTF-dialect databases: update() routes to the GTF importer, which re-derives transcripts and genes
     gdepth = 2 if tier == "quick" else 3
     for n in range(1, gdepth + 1):
@@ -159,8 +170,9 @@ def valid_case(c):
 
 def shrinks(c):
     ops = c["ops"]
+    keep = {k: v for k, v in c.items() if k in ("init", "kind")}
     for i in range(len(ops)):
-        yield {"ops": ops[:i] + ops[i + 1:]}
+        yield dict(keep, ops=ops[:i] + ops[i + 1:])
     for i, o in enumerate(ops):
         if o["op"] == "update":
             fs = o["feats"]
@@ -168,11 +180,11 @@ def shrinks(c):
                 o2 = dict(o, feats=fs[:j] + fs[j + 1:])
                 if o2["fail_at"] is not None and o2["fail_at"] > len(o2["feats"]):
                     o2["fail_at"] = len(o2["feats"])
-                yield {"ops": ops[:i] + [o2] + ops[i + 1:]}
+                yield dict(keep, ops=ops[:i] + [o2] + ops[i + 1:])
             if o["fail_at"] is not None:
-                yield {"ops": ops[:i] + [dict(o, fail_at=None)] + ops[i + 1:]}
+                yield dict(keep, ops=ops[:i] + [dict(o, fail_at=None)] + ops[i + 1:])
             if o["backup"]:
-                yield {"ops": ops[:i] + [dict(o, backup=False)] + ops[i + 1:]}
+                yield dict(keep, ops=ops[:i] + [dict(o, backup=False)] + ops[i + 1:])
 
 
 class SourceFailure(RuntimeError):
@@ -269,7 +281,7 @@ def run_impl(c):
                 db = gffutils.create_db([imp.to_feature(x, dialect) for x in gtf_init()], dbfn, dialect=dialect,
                                         merge_strategy="create_unique", verbose=False)
             else:
-                db = gffutils.create_db([imp.to_feature(x) for x in init_feats()], dbfn, merge_strategy="create_unique",
+                db = gffutils.create_db([imp.to_feature(x) for x in init_feats(c.get("init") == "named")], dbfn, merge_strategy="create_unique",
                                         verbose=False)
             out["created"] = ["ok", dump_file(dbfn)]
         except Exception as ex:
@@ -356,7 +368,7 @@ def coq_step(s):
 
 def coq_case(c, o):
     gtf = c.get("kind") == "gtf"
-    init = L.lst([imp.coq_row(x) for x in (gtf_init() if gtf else init_feats())], "row")
+    init = L.lst([imp.coq_row(x) for x in (gtf_init() if gtf else init_feats(c.get("init") == "named"))], "row")
     return "CHist %s %s %s %s %s" % ("KGtf" if gtf else "KGff", init, L.lst([coq_op(x, gtf) for x in c["ops"]], "op"),
                                      imp.res_tables(o["created"]), L.lst([coq_step(s) for s in o.get("steps", [])], "stepobs"))
 
